@@ -664,7 +664,7 @@ class _Conv(Module):
     )
 
     if self.mask is not None:
-      kernel *= self.mask
+      kernel = kernel * self.mask  # (not in place: the kernel may be the caller's array)
 
     if self.use_bias:
       if self.shared_weights:
@@ -1012,7 +1012,7 @@ class ConvTranspose(Module):
     )
 
     if self.mask is not None:
-      kernel *= self.mask
+      kernel = kernel * self.mask  # (not in place: the kernel may be the caller's array)
 
     padding_lax = canonicalize_padding(self.padding, len(kernel_size))
     if padding_lax == 'CIRCULAR':
